@@ -26,3 +26,25 @@ def pip_forces_zero(i, p):
         if not eq and b <= 0 and all(c <= 0 for c in av) and any(c < 0 for c in av) and all(c <= 0 for c in ap):
             return True
     return False
+
+
+def _indefinite(c0, cs):
+    """c0 + sum cs[k]*p_k takes both signs over p >= 0."""
+    return (c0 < 0 and any(c > 0 for c in cs)) or (c0 > 0 and any(c < 0 for c in cs)) or (any(c > 0 for c in cs) and any(c < 0 for c in cs))
+
+
+def pip_first_tree_splits(i, p):
+    """The constraints solved before the incremental addition give a tree with a decision node: some row's parametric
+    part changes sign over the parameters, or two rows bounding the same variable from below compare differently
+    for different parameter values."""
+    rows = [r for r in pip_rows(i, p)[:i['sel_first']] if any(r[0])]
+    for av, ap, b, eq in rows:
+        if _indefinite(b, ap):
+            return True
+    for x in range(len(rows)):
+        for y in range(x + 1, len(rows)):
+            (a1, p1, b1, _), (a2, p2, b2, _) = rows[x], rows[y]
+            for j in range(len(a1)):
+                if a1[j] > 0 and a2[j] > 0 and _indefinite(b2 * a1[j] - b1 * a2[j], [c2 * a1[j] - c1 * a2[j] for c1, c2 in zip(p1, p2)]):
+                    return True
+    return False
